@@ -59,6 +59,7 @@ type DocSpec struct {
 
 	TextOps  int  `json:"text_ops"`  // 0 Tj only, 1 TJ arrays, 2 mixed incl. Tm / T* positioning
 	FormXObj bool `json:"form_xobj"` // some lines live in a Form XObject
+	Bulk     int  `json:"bulk,omitempty"` // this many unreferenced objects: cross-reference data longer than a read buffer
 	Superscripts bool `json:"superscripts,omitempty"` // short raised pieces of text: baselines closer together than half a glyph height
 	FormNest int  `json:"form_nest,omitempty"` // that form invokes this many forms of its own, one line each
 
@@ -412,6 +413,9 @@ func (d *docState) buildBase(set map[int]Obj) {
 	}
 	if d.resNum != 0 {
 		set[d.resNum] = d.resDict
+	}
+	for i := 0; i < sp.Bulk; i++ {
+		set[d.w.NextNum()] = 1000 + i
 	}
 	d.emitTree(set)
 	set[d.catalog] = Dict{{"Type", Name("Catalog")}, {"Pages", d.ref(d.rootNode)}}
